@@ -26,7 +26,7 @@ var c07Queries = []string{
 	`{ pets { name ... on Cat { toys } ... on Dog { barks } } }`,
 }
 
-var faultKinds = []string{"transport", "gqlerrors", "gqlerrors+data", "node-null", "empty", "wrong-shape", "gqlerrors+null", "timeout"}
+var faultKinds = []string{"transport", "gqlerrors", "gqlerrors+data", "node-null", "empty", "wrong-shape", "gqlerrors+null", "timeout", "blank-error"}
 
 type joinSite struct {
 	svc, id string
@@ -84,7 +84,7 @@ func (c07) Cases(tier string) int {
 }
 
 func (c07) Rule() string {
-	return "for fixed and generated queries over the fixed and random federations the calls of a fault-free run are listed as (service, join id); then fault assignments over those calls are applied: every single call x every outcome kind {transport error, error list, errors+partial data, errors with node:null, an error wrapping the deadline error of that one call, node:null, empty payload, wrong-shape payload}, every pair of calls, and random subsets; checked: no panic, no hang, no error when nothing was injected, every injected error message is in the returned list (as a multiset) and, with its message, in the HTTP response of the same request, a null/malformed payload yields at least one error, every value present in the data equals the monolith's at that position, and every call that was answered normally has its fields in the data at each object it joined onto; non-trivial = at least 2 calls and 1 fault; distinct = distinct (federation, query, fault assignment)"
+	return "for fixed and generated queries over the fixed and random federations the calls of a fault-free run are listed as (service, join id); then fault assignments over those calls are applied: every single call x every outcome kind {transport error, error list, errors+partial data, errors with node:null, an error wrapping the deadline error of that one call, an error with an empty message, node:null, empty payload, wrong-shape payload}, every pair of calls, and random subsets; checked: no panic, no hang, no error when nothing was injected, every injected error message is in the returned list (as a multiset) and, with its message, in the HTTP response of the same request, a null/malformed payload yields at least one error, every value present in the data equals the monolith's at that position, and every call that was answered normally has its fields in the data at each object it joined onto; non-trivial = at least 2 calls and 1 fault; distinct = distinct (federation, query, fault assignment)"
 }
 
 type callKey struct{ svc, id string }
@@ -398,6 +398,9 @@ func (c07) Run(c *Ctx, i int) CaseResult {
 		case "timeout":
 			wantMsgs["did not answer in time"] += n
 		}
+	}
+	if len(msgs) < injectedErrs {
+		bad("L0.errors", fmt.Sprintf("%d errors were injected (whatever their text) and %d are reported", injectedErrs, len(msgs)), obs)
 	}
 	for m, n := range wantMsgs {
 		if got := count(m); got != n {
